@@ -910,3 +910,43 @@ Theorem c11_fasta_writer_empty_description_refuted :
   /\ read_file (write_file 5 [mkfrec [97] (Some [32; 120]) [65]]) = ([mkfrec [97] (Some [120]) [65]], None).
 Proof. vm_compute. repeat split. Qed.
 Print Assumptions c11_fasta_writer_empty_description_refuted.
+
+(* ---- wave 10: the EXACT stream position after a region query (uncompressed, any delivery) ----
+   read_sequence_limit over ANY simulated reader stops with exactly [rest ...] unread (the refinement
+   of C12's step lemma for a partial consume); for BufReader over any scripted source the position
+   BufReader::stream_position() reports after Reader::query is the closed form query_pos_spec =
+   |f| - |seq_rest BOL (seek f pos) k|, for every capacity >= 1 and every script. *)
+From NV Require Fasta.QueryPos Fasta.QueryPosProofs Io.ReadExactProofs Io.BufReaderProofs Io.FastaScanProofs.
+
+Theorem c11_read_sequence_limit_unread_exact :
+  forall (S : Type) (rd : Source.reader S) (Rep : S -> list N -> nat -> Prop),
+  ReadExactProofs.simulates rd Rep -> forall cap : nat, (1 <= cap)%nat ->
+  forall fuel max ib p st d m acc,
+    BufReaderProofs.rep_buf Rep st d m -> (p = true -> ib = false) -> (FastaScanProofs.mu m d p < fuel)%nat ->
+    exists (bases : list N) (ib' p' : bool) (st' : BufReader.bstate S) (m' : nat),
+      BgzipGzi.read_sequence_limit_st rd cap fuel max (ib, p, st) acc = (FastaScan.SOk, bases, (ib', p', st')) /\
+      BufReaderProofs.rep_buf Rep st' (QueryPosProofs.rest ib p d (max - len acc)) m'.
+Proof. intros S rd Rep. exact (@QueryPosProofs.read_sequence_limit_st_rest S rd Rep). Qed.
+Print Assumptions c11_read_sequence_limit_unread_exact.
+
+Theorem c11_query_position_exact : forall chk (cap : nat) f sc r s e pos, (1 <= cap)%nat ->
+  let start0 := match s with Some p => (p - 1)%N | None => 0%N end in
+  let st := match s with Some p => p | None => 1%N end in
+  let en := match e with Some p => p | None => usize_max end in
+  fai_query_gen chk r start0 = Some pos -> (st <= en)%N ->
+  QueryPos.query_delivered_pos chk cap f sc r s e
+  = (SOk, query_record chk f r s e, Some (QueryPos.query_pos_spec f pos (en - st + 1)%N)).
+Proof. exact QueryPosProofs.query_delivered_pos_exact. Qed.
+Print Assumptions c11_query_position_exact.
+
+Theorem c11_query_position_observed_is_closed_form : forall (cap : nat) f sc name s e, (1 <= cap)%nat ->
+  QueryPos.index_and_query_delivered_pos cap f sc name s e
+  = (SOk, fst (QueryPos.index_and_query_pos_closed f name s e),
+          snd (QueryPos.index_and_query_pos_closed f name s e)).
+Proof. exact QueryPosProofs.index_and_query_delivered_pos_closed. Qed.
+Print Assumptions c11_query_position_observed_is_closed_form.
+
+Theorem c11_query_unread_is_suffix : forall d st k,
+  exists n, QueryPos.seq_rest st d k = skipn n d.
+Proof. exact QueryPosProofs.seq_rest_suffix. Qed.
+Print Assumptions c11_query_unread_is_suffix.
